@@ -78,8 +78,11 @@ def replay_chunk(args):
             except Exception as e:   # noqa  (a class the installed pandas cannot build)
                 out["drift"].append({"what": "cannot concretise", "class": cls, "exc": repr(e)[:100]})
                 continue
-            z = pd.Series(np.arange(len(cells), dtype="int64") * 7 + 91000, name="z")
-            df = pd.DataFrame({"x": ser, "z": z})
+            # the name of the neighbouring column is not something the table depends on: every other case calls it by a
+            # name that ends like the reader's internal "<column>-catdef" entries
+            zname = "z" if ci % 2 == 0 else "z-catdef"
+            z = pd.Series(np.arange(len(cells), dtype="int64") * 7 + 91000, name=zname)
+            df = pd.DataFrame({"x": ser, zname: z})
             opt = case.get("opt")
             ycat = None
             if cls.startswith("cat_") and len(cells) and opt in (None, "default", "hive"):
@@ -92,12 +95,12 @@ def replay_chunk(args):
             widx = False
             if opt == "index":
                 # x is the frame's named row index (categorical / datetime / text / ... index as the class says)
-                df = pd.DataFrame({"z": z.values}, index=pd.Index(ser, name="x"))
+                df = pd.DataFrame({zname: z.values}, index=pd.Index(ser, name="x"))
                 widx = None
             elif opt == "index2":
                 # x is the first level of a two-level index; the second level repeats three integers
                 w = np.arange(len(cells), dtype="int64") % 3 + 40
-                df = pd.DataFrame({"z": z.values}, index=pd.MultiIndex.from_arrays([ser, w], names=["x", "w"]))
+                df = pd.DataFrame({zname: z.values}, index=pd.MultiIndex.from_arrays([ser, w], names=["x", "w"]))
                 widx = None
             elif opt == "rangeidx":
                 widx = True                       # the automatic range index is written as a column named "index"
@@ -120,7 +123,7 @@ def replay_chunk(args):
                 elif case.get("opt") == "fixed":
                     okw["fixed_text"] = {"x": 8}          # no value of the text / bytes classes is longer than 8 bytes
                 elif case.get("opt") == "explicit":
-                    okw["object_encoding"] = {"x": "bytes" if cls == "obj_bytes" else "utf8", "z": "infer"}
+                    okw["object_encoding"] = {"x": "bytes" if cls == "obj_bytes" else "utf8", zname: "infer"}
                 fp.write(path, df, has_nulls=has_nulls, row_group_offsets=(case["rgo"] or None), stats=stats,
                          write_index=widx, compression=(None if case.get("codec", "none") == "none" else case["codec"]),
                          **okw)
@@ -171,7 +174,7 @@ def replay_chunk(args):
                             out["viol"].append(("C01", dict(sig, what="second level of the written row index changed on "
                                                                       "read-back", opt=opt), ci))
                         gi = got.index.get_level_values("x")
-                        got = pd.DataFrame({"x": pd.Series(gi.array if hasattr(gi, "array") else gi), "z": got["z"].values})
+                        got = pd.DataFrame({"x": pd.Series(gi.array if hasattr(gi, "array") else gi), zname: got[zname].values})
                 if got is not None and ycat is not None:
                     if "y" not in got.columns or str(got["y"].dtype) != "category" or \
                             list(got["y"].astype(object)) != list(pd.Series(ycat).astype(object)) or \
@@ -182,12 +185,12 @@ def replay_chunk(args):
                     got = got.drop(columns=["y"], errors="ignore")
                 if got is None:
                     pass
-                elif list(got.columns) != ["x", "z"]:
+                elif list(got.columns) != ["x", zname]:
                     out["viol"].append(("C01", dict(sig, what="column names or order changed"), ci))
                 elif len(got) != len(cells):
                     out["viol"].append(("C01", dict(sig, what="row count changed"), ci))
                 else:
-                    if [int(v) for v in got["z"]] != [int(v) for v in z]:
+                    if [int(v) for v in got[zname]] != [int(v) for v in z]:
                         out["viol"].append(("C01", dict(sig, what="cells of a neighbouring column changed"), ci))
                     gx = got["x"]
                     vals = list(gx.astype(object)) if str(gx.dtype) == "category" else list(gx)
@@ -339,7 +342,7 @@ def replay_chunk(args):
                             snap = repr(S)
                             zcut = int(z.iloc[case["rgs"][0]["len"] - 1]) if case["rgs"][0]["len"] else int(z.iloc[0])
                             try:
-                                fp.api.sorted_partitioned_columns(pf, filters=[("z", ">", zcut)])
+                                fp.api.sorted_partitioned_columns(pf, filters=[(zname, ">", zcut)])
                             except BaseException:  # noqa  (what a filtered call may answer is not the subject here)
                                 pass
                             if repr(pf.statistics) != snap:
